@@ -1176,3 +1176,204 @@ def flow_origins(body, local, pend=(), depth=600):
             else:
                 out.append(("other", d[1], None))
     return out
+
+
+
+# ------------------------------------------------------------------------------------------------
+# appended: helpers of the jobserver / scheduler rules (C08, C09)
+
+def cell_origins(body, o, depth=400):
+    """Where can the value of operand `o` come from?  Backward over whole-local copies / moves (every definition
+    of a local that is assigned on several paths), borrows and reborrows, and *struct fields*: reading `X.f`
+    continues at every assignment of a place ending in field f in this body and at f's operand in every
+    aggregate of f's struct (a loop variable kept in a field of a state struct is followed like a loop variable
+    kept in a local). Returns [("call", bb, term) | ("const", bb, const) | ("other", bb, rvalue-or-None)]: calls
+    that are not whole-value moves, constants, and everything else (parameters, arithmetic, ...)."""
+    ba = BA.of(body)
+    out = []
+    seen = set()
+    todo = [("op", o)]
+    n = 0
+
+    def push_place(p):
+        fs = [e for e in p["p"] if e != "deref"]
+        if not fs:
+            todo.append(("local", p["l"]))
+        elif fs[-1].startswith("f:"):
+            todo.append(("field", fs[-1][2:]))
+            # a field of a local aggregate built in one piece is also reached through the local
+        else:
+            out.append(("other", None, None))
+
+    while todo and n < depth:
+        n += 1
+        kind, x = todo.pop()
+        if kind == "op":
+            c = op_const(x)
+            if c is not None:
+                out.append(("const", None, c))
+                continue
+            p = op_place(x)
+            if p is not None:
+                push_place(p)
+            continue
+        if (kind, x) in seen:
+            continue
+        seen.add((kind, x))
+        if kind == "local":
+            ds = [d for d in ba.defs.get(x, []) if d[0] in ("stmt", "call", "yield")]
+            if not ds:
+                out.append(("other", None, None))
+            for d in ds:
+                if d[0] == "call":
+                    out.append(("call", d[1], d[2]))
+                elif d[0] == "yield":
+                    out.append(("other", d[1], None))
+                else:
+                    rv = d[3]
+                    if rv["k"] == "use":
+                        todo.append(("op", rv["op"]))
+                    elif rv["k"] == "ref":
+                        push_place(rv["place"])
+                    else:
+                        out.append(("other", d[1], rv))
+        else:
+            adt, _, fname = x.rpartition(".")
+            found = False
+            for (bb, j, s) in field_writes(body, re.escape(x)):
+                found = True
+                rv = s["rv"]
+                if rv["k"] == "use":
+                    todo.append(("op", rv["op"]))
+                else:
+                    out.append(("other", bb, rv))
+            for i in sorted(ba.live):
+                if body.is_cleanup(i):
+                    continue
+                for s in body.blocks[i]["stmts"]:
+                    rv = s["rv"] if s["s"] == "assign" else None
+                    if rv is not None and rv["k"] == "agg" and rv.get("agg") == "adt" and rv.get("adt") == adt and fname in (rv.get("fields") or []):
+                        found = True
+                        todo.append(("op", rv["ops"][rv["fields"].index(fname)]))
+            if not found:
+                out.append(("other", None, None))
+    if todo:
+        out.append(("other", None, None))
+    return out
+
+
+class Lin:
+    """A linear expression  c + sum(k_i * atom_i)  with integer coefficients (atoms are hashable tokens)."""
+    __slots__ = ("c", "t")
+
+    def __init__(self, c=0, t=None):
+        self.c = c
+        self.t = {k: v for k, v in (t or {}).items() if v != 0}
+
+    @staticmethod
+    def atom(a):
+        return Lin(0, {a: 1})
+
+    def __add__(self, o):
+        t = dict(self.t)
+        for k, v in o.t.items():
+            t[k] = t.get(k, 0) + v
+        return Lin(self.c + o.c, t)
+
+    def __neg__(self):
+        return Lin(-self.c, {k: -v for k, v in self.t.items()})
+
+    def __sub__(self, o):
+        return self + (-o)
+
+    def scale(self, k):
+        return Lin(self.c * k, {a: v * k for a, v in self.t.items()})
+
+    def __eq__(self, o):
+        return isinstance(o, Lin) and self.c == o.c and self.t == o.t
+
+    def __ne__(self, o):
+        return not self.__eq__(o)
+
+    def __hash__(self):
+        return hash((self.c, tuple(sorted(self.t.items(), key=repr))))
+
+    def const(self):
+        """The integer value if the expression is a constant, else None."""
+        return self.c if not self.t else None
+
+    def atoms(self):
+        return set(self.t)
+
+    def __repr__(self):
+        parts = [("%+d*%s" % (v, a)) for a, v in sorted(self.t.items(), key=repr)]
+        return "Lin(%s%s)" % (self.c, "".join(parts))
+
+
+def lin_of(body, o, depth=40):
+    """Operand `o` as a linear expression over the values it is computed from, by backward substitution through
+    single-definition locals: copies / moves, integer casts, `+` / `-` (plain, unchecked or the checked-arithmetic
+    pair `(a op b).0`), multiplication by a constant, negation. Atoms are ('l', n): a local that is a parameter,
+    assigned on several paths, or defined by anything else (a call, a field read, a comparison ...), after following
+    whole-local copies.  Two operands denote the same amount on every execution if their expressions are equal
+    (sound as long as the atoms are not reassigned in between, which single definitions guarantee; a local with
+    several definitions is an atom of its own and so only equal to itself)."""
+    ba = BA.of(body)
+
+    def ev_op(o, d):
+        k = const_int(o)
+        if k is not None:
+            return Lin(k)
+        p = op_place(o)
+        if p is None:
+            return Lin.atom(("?", id(o)))
+        return ev_place(p, d)
+
+    def ev_place(p, d):
+        proj = p["p"]
+        if proj == ["f:tuple.0"]:
+            df = ba.single_def(p["l"])
+            if df is not None and df[0] == "stmt" and df[3]["k"] == "binop" and df[3]["op"].endswith("WithOverflow"):
+                return ev_rv(df[3], p["l"], d)
+            return Lin.atom(("l", p["l"], "0"))
+        if proj:
+            return Lin.atom(("p", p["l"], tuple(proj)))
+        return ev_local(p["l"], d)
+
+    def ev_local(l, d):
+        if d <= 0:
+            return Lin.atom(("l", l))
+        df = ba.single_def(l)
+        if df is None or df[0] != "stmt" or any(x[0] in ("field", "callfield") for x in ba.defs.get(l, [])):
+            return Lin.atom(("l", l))
+        return ev_rv(df[3], l, d - 1)
+
+    def ev_rv(rv, l, d):
+        k = rv["k"]
+        if k == "use":
+            c = op_const(rv["op"])
+            if c is not None and "int" not in c:
+                return Lin.atom(("l", l))
+            p = op_place(rv["op"])
+            if p is not None and p["p"] and p["p"] != ["f:tuple.0"]:
+                return Lin.atom(("l", l))          # a field / payload read: the local that holds it is the atom
+            return ev_op(rv["op"], d)
+        if k == "cast" and rv.get("cast") == "IntToInt":
+            return ev_op(rv["op"], d)
+        if k == "binop":
+            op = rv["op"]
+            base = op.replace("WithOverflow", "").replace("Unchecked", "")
+            if base in ("Add", "Sub"):
+                a, b_ = ev_op(rv["a"], d), ev_op(rv["b"], d)
+                return a + b_ if base == "Add" else a - b_
+            if base == "Mul":
+                ka, kb = const_int(rv["a"]), const_int(rv["b"])
+                if kb is not None:
+                    return ev_op(rv["a"], d).scale(kb)
+                if ka is not None:
+                    return ev_op(rv["b"], d).scale(ka)
+        if k == "unop" and rv["op"] == "Neg":
+            return -ev_op(rv["a"], d)
+        return Lin.atom(("l", l))
+
+    return ev_op(o, depth)
